@@ -9,7 +9,7 @@ from .. import gen, jsonmut, norm, states
 from ..common import lib
 from ..core import require
 from ..spec import kinds
-from .c04 import jdiff, split_known_names
+from .c04 import jdiff, split_known_names, split_known_variance
 
 ID = "C15"
 BUDGET = {"quick": (4, 2500), "thorough": (16, 25000)}
@@ -42,7 +42,7 @@ def strategy(tier):
     @st.composite
     def cases(draw):
         spec, focus = draw(gen.specs_and_focus(opts, 10))
-        rec = draw(gen.recipes(spec, max_rows=8, reload_ok=False, focus=focus))
+        rec = draw(gen.recipes(spec, max_rows=8, reload_ok=False, focus=focus, inf_weights=True))
         return {"spec": spec, "state": rec, "site": draw(st.integers(0, 10**6)), "as_string": draw(st.booleans())}
 
     return cases()
@@ -55,6 +55,7 @@ def check(case):
     doc = json.loads(json.dumps(h.toJson(), allow_nan=False))
     r = hg.Factory.fromJson(json.dumps(doc) if case["as_string"] else doc)
     _, other = split_known_names(jdiff(doc, json.loads(json.dumps(r.toJson(), allow_nan=False))))
+    _, other = split_known_variance(other, doc)  # (C04's known finding, not this property's business)
     require(not other, "valid-document-changed", lambda: f"a document produced by toJson() re-serialises differently: {other[:4]}")
 
     ss = jsonmut.sites(doc)
